@@ -1,9 +1,10 @@
 /-
 C18 – Protocol code points map losslessly to enums and back.
 
-Property theorems only.  The generic theorems hold for *every* table that can
-be written with `typeenum!`; the instantiated ones are about the tables
-regenerated from /repo's sources on every run (Rc/Gen/Codepoints.lean).
+Property theorems only.  The generic theorems hold for *every* positional table (they mention no
+generated constant and cannot fail when the source changes); the theorems named `generated_*`,
+`header_msg_type_*`, `apdir_*`, `segtype_*` and the details theorems are about the tables
+regenerated from /repo's sources on every run (Rc/Gen/Codepoints.lean) and are re-decided then.
 -/
 import Rc.Model.Codepoint
 import Rc.Gen.Codepoints
@@ -118,8 +119,12 @@ theorem afisafi_injective (tbl : List (Nat × Nat)) (a s a' s' : Nat)
   rw [h, afisafi_roundtrip] at h1
   exact (Option.some.inj h1).symm
 
-/-- the 3-byte encoding is the big-endian AFI followed by the SAFI – for all
-2^24 pairs (indeed all naturals), without enumeration. -/
+/-- the 3-byte encoding AS MODELLED is the big-endian AFI followed by the SAFI.  NOTE: this restates a
+definition (`afisafiBytes` is defined as `be16 afi ++ [safi]` of the round-tripped pair) and says
+nothing about the Rust function `AfiSafiType::as_bytes`, which is a separate 13-arm `match`
+(src/bgp/nlri/afisafi.rs): that clause is decided by the ORACLE of the harness, which compares
+`as_bytes()` with an independently computed `afi.to_be_bytes() ++ [safi]` for every pair it runs
+(all 2^24 pairs in the thorough tier; see tools/props/C18.json for the quick tier's coverage). -/
 theorem afisafi_bytes (tbl : List (Nat × Nat)) (a s : Nat) :
     afisafiBytes tbl (afisafiFrom tbl a s) = some (be16 a ++ [UInt8.ofNat s]) := by
   simp [afisafiBytes, afisafi_roundtrip]
@@ -152,6 +157,138 @@ theorem apdir_roundtrip : ∀ p ∈ Gen.apdirFrom, assoc Gen.apdirTo p.2 = some 
 theorem apdir_back : ∀ p ∈ Gen.apdirTo, assoc Gen.apdirFrom p.2 = some p.1 := by decide
 theorem segtype_roundtrip : ∀ p ∈ Gen.segtypeFrom, assoc Gen.segtypeTo p.2 = some p.1 := by decide
 theorem segtype_back : ∀ p ∈ Gen.segtypeTo, assoc Gen.segtypeFrom p.2 = some p.1 := by decide
+
+/-! ## table-level well-formedness, decided for every table of the current source
+
+The generic theorems above hold for ANY positional table (even one with a repeated code, where a
+later arm would silently be dead).  What makes a table denote the enumeration its source declares is
+decided here, by the kernel, for every table the translator regenerates from the current source: a
+change of a `typeenum!` invocation (a duplicated or out-of-width code, a range that swallows a named
+code or overlaps another range, a lost arm) re-checks - and can fail - these theorems, not only the
+exhaustive harness run. -/
+
+/-- named codes are pairwise distinct and fit the width; every named arm has its variant name and
+every range arm its name; ranges are non-empty, fit the width, contain no named code and are
+pairwise disjoint (so no arm of the `match` is shadowed by an earlier one) -/
+def wfB (t : TypeEnum) : Bool :=
+  decide t.codes.Nodup && t.variants.length == t.codes.length && t.rangeNames.length == t.ranges.length
+    && t.codes.all (fun c => c < 2 ^ t.width)
+    && t.ranges.all (fun r => r.1 ≤ r.2 && r.2 < 2 ^ t.width)
+    && t.ranges.all (fun r => t.codes.all (fun c => c < r.1 || r.2 < c))
+    && decide (t.ranges.Pairwise (fun r q => r.2 < q.1 ∨ q.2 < r.1))
+
+/-- **every generated table is well-formed** (kernel-decided on the regenerated tables) -/
+theorem generated_tables_wf : ∀ t ∈ Gen.typeenums, wfB t = true := by decide +kernel
+
+/-- the (AFI, SAFI) rows are pairwise distinct and fit u16 / u8 -/
+theorem generated_afisafi_wf :
+    Gen.afisafiPairs.Nodup ∧ ∀ p ∈ Gen.afisafiPairs, p.1 < 65536 ∧ p.2 < 256 := by decide +kernel
+
+private theorem findIdx_nodup {cs : List Nat} (hn : cs.Nodup) {i : Nat} (hi : i < cs.length) :
+    findIdx cs cs[i] = some i := by
+  induction cs generalizing i with
+  | nil => simp at hi
+  | cons c cs ih =>
+    rw [List.nodup_cons] at hn
+    cases i with
+    | zero => simp [findIdx]
+    | succ j =>
+      have hj : j < cs.length := by simpa using hi
+      have hne : ¬ c = cs[j] := fun h => hn.1 (h ▸ List.getElem_mem hj)
+      simp only [List.getElem_cons_succ, findIdx, hne, if_false, ih hn.2 hj, Option.map_some]
+
+private theorem findIdx_none {cs : List Nat} {n : Nat} (h : ∀ c ∈ cs, c ≠ n) : findIdx cs n = none := by
+  induction cs with
+  | nil => rfl
+  | cons c cs ih =>
+    have hc : ¬ c = n := h c (by simp)
+    simp only [findIdx, hc, if_false, ih (fun d hd => h d (by simp [hd])), Option.map_none]
+
+private theorem findPair_nodup {ps : List (Nat × Nat)} (hn : ps.Nodup) {i : Nat} (hi : i < ps.length) :
+    findPair ps ps[i] = some i := by
+  induction ps generalizing i with
+  | nil => simp at hi
+  | cons c cs ih =>
+    rw [List.nodup_cons] at hn
+    cases i with
+    | zero => simp [findPair]
+    | succ j =>
+      have hj : j < cs.length := by simpa using hi
+      have hne : ¬ c = cs[j] := fun h => hn.1 (h ▸ List.getElem_mem hj)
+      simp only [List.getElem_cons_succ, findPair, hne, if_false, ih hn.2 hj, Option.map_some]
+
+private theorem findRange_pairwise {rs : List (Nat × Nat)}
+    (hp : rs.Pairwise (fun r q => r.2 < q.1 ∨ q.2 < r.1)) {j : Nat} (hj : j < rs.length) {n : Nat}
+    (hlo : rs[j].1 ≤ n) (hhi : n ≤ rs[j].2) : findRange rs n = some j := by
+  induction rs generalizing j with
+  | nil => simp at hj
+  | cons r rs ih =>
+    obtain ⟨lo, hi⟩ := r
+    rw [List.pairwise_cons] at hp
+    cases j with
+    | zero =>
+      simp only [List.getElem_cons_zero] at hlo hhi
+      simp [findRange, hlo, hhi]
+    | succ k =>
+      have hk : k < rs.length := by simpa using hj
+      simp only [List.getElem_cons_succ] at hlo hhi
+      have hd := hp.1 rs[k] (List.getElem_mem hk)
+      have hout : ¬ (lo ≤ n ∧ n ≤ hi) := by
+        simp only at hd
+        omega
+      simp only [findRange, hout, if_false, ih hp.2 hk hlo hhi, Option.map_some]
+
+/-- **no named arm is dead**: in a well-formed table the number written on the `i`-th named arm
+decodes to exactly that variant (and, by `toInt_fromInt`, back to that number) -/
+theorem named_reachable (t : TypeEnum) (h : wfB t = true) (i : Nat) (hi : i < t.codes.length) :
+    fromInt t t.codes[i] = .named i := by
+  simp only [wfB, Bool.and_eq_true, decide_eq_true_eq] at h
+  unfold fromInt
+  rw [findIdx_nodup h.1.1.1.1.1.1 hi]
+
+/-- **no range arm is dead or shadowed**: in a well-formed table every number inside the bounds of the
+`j`-th range arm decodes to that range variant carrying the number -/
+theorem range_reachable (t : TypeEnum) (h : wfB t = true) (j : Nat) (hj : j < t.ranges.length) (n : Nat)
+    (hlo : t.ranges[j].1 ≤ n) (hhi : n ≤ t.ranges[j].2) : fromInt t n = .range j n := by
+  simp only [wfB, Bool.and_eq_true, decide_eq_true_eq, List.all_eq_true, Bool.or_eq_true] at h
+  obtain ⟨⟨_, hout⟩, hpw⟩ := h
+  have hnone : findIdx t.codes n = none := by
+    apply findIdx_none
+    intro c hc hcn
+    have := hout t.ranges[j] (List.getElem_mem hj) c hc
+    subst hcn
+    omega
+  unfold fromInt
+  rw [hnone, findRange_pairwise hpw hj hlo hhi]
+
+/-- the property's clauses (a)-(c) **for the tables of the current source**: every number maps to a
+variant that maps back to it; every declared named arm and every number of every declared range is
+reached (nothing is shadowed); a number that is on no arm is kept in the catch-all.  The first and
+last conjunct are the generic theorems instantiated; the two in the middle rest on
+`generated_tables_wf`, i.e. they are re-decided against the regenerated tables. -/
+theorem generated_tables_lossless : ∀ t ∈ Gen.typeenums,
+    (∀ n, toInt t (fromInt t n) = some n) ∧
+    (∀ i (hi : i < t.codes.length), fromInt t t.codes[i] = .named i) ∧
+    (∀ j (hj : j < t.ranges.length) n, t.ranges[j].1 ≤ n → n ≤ t.ranges[j].2 → fromInt t n = .range j n) ∧
+    (∀ n v, fromInt t n = .unimpl v → v = n) := fun t ht =>
+  ⟨toInt_fromInt t, named_reachable t (generated_tables_wf t ht), range_reachable t (generated_tables_wf t ht),
+    unknown_preserved t⟩
+
+/-- … and for the (AFI, SAFI) rows of the current source: every pair round-trips, every declared
+row is reached by its own pair, an undeclared pair is kept in `Unsupported(afi, safi)` -/
+theorem generated_afisafi_lossless :
+    (∀ a s, afisafiTo Gen.afisafiPairs (afisafiFrom Gen.afisafiPairs a s) = some (a, s)) ∧
+    (∀ i (hi : i < Gen.afisafiPairs.length),
+      afisafiFrom Gen.afisafiPairs Gen.afisafiPairs[i].1 Gen.afisafiPairs[i].2 = .known i) ∧
+    (∀ a s a' s', afisafiFrom Gen.afisafiPairs a s = .unsupported a' s' → (a', s') = (a, s)) := by
+  refine ⟨afisafi_roundtrip _, ?_, ?_⟩
+  · intro i hi
+    unfold afisafiFrom
+    rw [findPair_nodup generated_afisafi_wf.1 hi]
+  · intro a s a' s' h
+    have := afisafi_roundtrip Gen.afisafiPairs a s
+    rw [h] at this
+    simpa [afisafiTo] using this
 
 /-! ## notification details -/
 
